@@ -82,11 +82,18 @@ def run_fire(sc: Dict[str, Any], tid: int, keep_call: bool = False) -> Dict[str,
     kwargs: Dict[str, Any] = {}
     if sc.get("step_ft") is not None:
         kwargs["trajectory_step"] = dist(sc["step_ft"], sc.get("step_unit", unit))
+    if sc.get("request_in_unit"):
+        # a card asked for in round numbers of a unit: [range, step, unit name] (range_ft / step_ft carry the same in feet)
+        rq = sc["request_in_unit"]
+        rng_q = getattr(m.Unit, rq[2])(rq[0])
+        kwargs["trajectory_step"] = getattr(m.Unit, rq[2])(rq[1])
     if sc.get("extra"):
         kwargs["extra_data"] = True
     if sc.get("time_step"):
         kwargs["time_step"] = sc["time_step"]
-    api: Dict[str, Any] = {"default_step": sc.get("step_ft") is None}
+    api: Dict[str, Any] = {"default_step": sc.get("step_ft") is None,
+                           "range_ft_asked": (rng_q >> m.Unit.Foot) if rng_q is not None else None,
+                           "step_ft_asked": (kwargs["trajectory_step"] >> m.Unit.Foot) if "trajectory_step" in kwargs else None}
     try:
         # generous (machine may be loaded); once one call has hung, the following ones get 20 s so that a
         # non-terminating change does not cost 300 s per scenario
